@@ -484,7 +484,8 @@ fn one_par<T: Sc>(out: &mut Out, rng: &mut Rng, thorough: bool, i: usize, thread
     };
     let fail_eval: Option<T> = if i % 8 == 3 { Some(thr_mid) } else { None };
     let huge: Option<f64> = if i % 8 == 7 {
-        Some(if T::WIDTH == 32 { *rng.pick(&[1e37, 1e-36]) } else { *rng.pick(&[1e307, 1e-300, 1e306]) })
+        // cycled by index: every magnitude class in every run
+        Some(if T::WIDTH == 32 { [1e37, 1e-36][(i / 8) % 2] } else { [1e307, 1e-300, 1e306][(i / 8) % 3] })
     } else {
         None
     };
